@@ -8,7 +8,7 @@ from vk.wit import concretize as cz
 PIN = {}
 FUNCTIONS = simh.FUNCTIONS
 META = {
-    'bounds': {'SIMH.machines': '2-4 (speeds 10/20, or 10,20,30,40)', 'SIMH.observations': '2-3', 'SIMH.start': '0..3 (0..7 for the late third observation of the singles profile)',
+    'bounds': {'SIMH.machines': '2-4 (speeds 10/20, or 10,20,30,40)', 'SIMH.observations': '1-3', 'SIMH.start': '0..3 (0..7 for the late third observation of the singles profile)',
                'SIMH.duration': '1..2 (quick) / 1..3 (thorough)',
                'SIMH.workflow': '1-3 tasks; shapes chain, fork, join, free, triangle and three relabelled variants whose node labels are not in topological order; task duration 0..2 injected as int (or compute demand over machine speed), edge volumes 0..15',
                'SIMH.algorithms': ['BatchProcessing(partitions 1-3, min 1; one degenerate per-observation split with min 0)', 'QueueProcessing', 'Dynamic+static stub', 'Greedy+static stub',
@@ -22,6 +22,7 @@ META = {
 ALGS = {'batch1': dict(kind='batch', parts=1, min=1), 'batch2': dict(kind='batch', parts=2, min=1), 'queue': dict(kind='queue'),
         'batch3': dict(kind='batch', parts=3, min=1),
         # legal but unusual: no global minimum, per-observation (min, max) splits, many partitions
+        'batchsplit': dict(kind='batch', parts=2, min=1, split={'o1': (3, 3), 'o2': (1, 3), 'o3': (1, 2)}),
         'batch0split': dict(kind='batch', parts=16, min=0, split={'o1': (2, 2), 'o2': (1, 1), 'o3': (1, 2)}), 'reserve1': dict(kind='reserve_only', parts=1, min=1), 'reserve2': dict(kind='reserve_only', parts=2, min=1)}
 
 
@@ -102,7 +103,7 @@ def prof_three(v):
     sc['arrays'] = PIN.get('arrays', 4)
     shape = PIN.get('shape', 'chain')
     edges = {'chain': [[0, 1, 5], [1, 2, 10]], 'fork': [[0, 1, 5], [0, 2, 0]], 'join': [[0, 2, 5], [1, 2, 10]], 'free': [],
-             'tri': [[0, 1, 5], [0, 2, 10], [1, 2, 5]],
+             'tri': [[0, 1, 5], [0, 2, 10], [1, 2, 5]], 'fork2': [[0, 1, 5], [0, 2, 15]],
              # node labels that are NOT in topological order (task ids embed the label)
              'relabel': [[0, 2, 5], [2, 1, 10], [0, 1, 5]], 'revchain': [[2, 1, 5], [1, 0, 10]], 'revjoin': [[2, 0, 5], [1, 0, 10]]}[shape]
     sc['graphs'] = [dict(n=3, edges=edges, durs=[da, db, dc])]
@@ -156,7 +157,21 @@ def prof_singles(v):
     return sc
 
 
-PROFILES = {'singles': prof_singles, 'two': prof_two, 'three': prof_three, 'delay': prof_delay, 'adv': prof_adv, 'static': prof_static}
+def prof_one(v):
+    """(d1, da, db, dc, sh, nm, vol, g1): ONE observation; 3-task workflow of shape sh on nm machines - the run ends with this workflow"""
+    d1, da, db, dc, sh, nm, vol, g1 = v
+    sc = base_scenario(1)
+    sc['machines'] = [10, 20, 10, 10][:nm]
+    sc['alg'] = ALGS.get(PIN.get('alg', 'batch1'), dict(kind='queue'))
+    sc['max_ingest'] = PIN.get('max_ingest', 2)
+    sc['obs'][0].update(start=PIN.get('s1', 0), dur=d1, ingest=g1)
+    edges = [[[0, 1, vol], [0, 2, 3 * vol]], [[0, 2, vol], [1, 2, 2 * vol]], [[0, 1, vol], [1, 2, vol]], []][sh]
+    sc['graphs'] = [dict(n=3, edges=edges, durs=[da, db, dc])]
+    sc['delays'] = PIN.get('delays', [])
+    return sc
+
+
+PROFILES = {'one': prof_one, 'singles': prof_singles, 'two': prof_two, 'three': prof_three, 'delay': prof_delay, 'adv': prof_adv, 'static': prof_static}
 
 
 def _grid_run(profile, v, props):
@@ -250,6 +265,7 @@ def G(profile, ranges, props, T=200, **pin):
 
 
 R_TWO = [(0, 2), (1, 2), (1, 2), (0, 2), (0, 2), (1, 2), (1, 2), (5, 5)]
+R_ONE = [(1, 2), (0, 2), (0, 2), (0, 2), (0, 3), (2, 3), (4, 6), (1, 2)]
 R_THREE = [(0, 2), (0, 3), (1, 2), (1, 2), (1, 2), (0, 2), (1, 1), (0, 2)]
 
 
